@@ -57,11 +57,14 @@ def generate_cases(tier, ev, vals, tagp):
                 ("wempty+concat", 3, ("h1", "h2"), 3, ["u64", "tr24"])]
         walks = (60, 14)
     else:
-        plan = [("empty", 4, ("h1", "h2"), 4, None), ("empty", 3, ("h1", "h2", "h3"), 4, None),
-                ("alias", 3, ("h1", "h2"), 4, None), ("alias", 2, ("h1", "h2", "h3"), 4, None),
-                ("full4", 3, ("h1", "h2"), 5, None), ("full4", 2, ("h1", "h2", "h3"), 5, None),
+        # (measured: the two-handle enumerations one step longer - empty N=4, alias N=3, full4 N=3 - have 0.5 - 0.75 million
+        # behaviours each, x 7 element kinds x 3 routes: far beyond what one run can replay or hold in memory; the thorough
+        # tier adds the third handle to every configuration instead and many more / longer walks and recorded histories)
+        plan = [("empty", 3, ("h1", "h2"), 4, None), ("empty", 3, ("h1", "h2", "h3"), 4, None),
+                ("alias", 2, ("h1", "h2", "h3"), 4, None),
+                ("full4", 2, ("h1", "h2"), 5, None), ("full4", 2, ("h1", "h2", "h3"), 5, None),
                 ("full8", 2, ("h1", "h2", "h3"), 9, ["u8", "tr24"]),
-                ("wempty+concat", 3, ("h1", "h2"), 3, None), ("wempty+concat", 3, ("h1", "h2", "h3"), 4, ["u64", "tr24"])]
+                ("wempty+concat", 3, ("h1", "h2"), 3, ["u64", "tr24", "str"])]
         walks = (400, 40)
     opcount = {}
     for (init0, n, hs, maxlen, only) in plan:
